@@ -200,7 +200,11 @@ def wellformed_filter(rng, events, shape=None, allow_limit=False):
         elif p == "time":
             base = pick()["created_at"] if events else T0
             c = rng.random()
-            if c < 0.4:
+            if rng.random() < 0.06:
+                # the zero bounds: {"until": 0} matches nothing, {"since": 0} restricts nothing
+                # ({"since": 0} on its own is the unrestricted filter: only C02 generates that, by name)
+                f[rng.choice(["until", "until", "since"]) if len(parts) > 1 else "until"] = 0
+            elif c < 0.4:
                 f["since"] = base + rng.choice([-1, 0, 1, -10])
             elif c < 0.7:
                 f["until"] = base + rng.choice([-1, 0, 1, 10])
